@@ -184,6 +184,23 @@ def stepOp (d : DS) (op implObs : String) : DS × String × List String × List 
             ["branch:add-ok", "accepted", s!"branch:add-{if m.hasInfo then "torrent" else "magnet"}"]
         | (s', .error e) =>
           finish { d with addIds := d.addIds ++ [""] } s' (errStr e) [] [s!"branch:add-{errStr e}", "rejected"]
+    | "cadd" =>
+      -- n callers add with the same explicit id at once: exactly one of them may succeed (none if the id
+      -- is taken or no port is free); the port is the one the implementation's registry shows for the id
+      let m := metaOf toks
+      let o := optsOf toks
+      let n := kvNat toks "n"
+      let id := o.id.getD ""
+      let implPort := match parseObs s.lo s.hi implObs with
+        | some (_, io) => ((io.live.find? (fun t => t.id == id)).map (·.f.port)).getD (s.free.headD 0)
+        | none => s.free.headD 0
+      let itoks := words implRes
+      let dupViol := if kvNat itoks "ok" > 1 then [s!"C14 concurrent-duplicate-id ok={kvNat itoks "ok"}"] else []
+      match addSeq s m o implPort "" {} with
+      | (s', .ok id') =>
+        finish { d with addIds := d.addIds ++ [id'] } s' s!"ok=1 fail={n - 1}" dupViol ["branch:cadd-one-wins", "accepted", "rejected"]
+      | (s', .error _) =>
+        finish { d with addIds := d.addIds ++ [""] } s' s!"ok=0 fail={n}" dupViol ["branch:cadd-all-rejected", "rejected"]
     | "remove" =>
       let id := refId d (kvNat toks "t")
       finish d (remove s id) "ok" [] [if id ∈ s.regIds then "branch:remove-live" else "branch:remove-absent"]
@@ -271,5 +288,8 @@ def suite : Suite where
     -- non-trivial: at least one accepted add, one rejected add and one restart in the history
     let nt := if tags.contains "accepted" ∧ tags.contains "rejected" ∧ tags.contains "restart" then ["nontrivial"] else []
     (rs.reverse, (tags.filter (fun t => t.startsWith "branch:")) ++ nt)
+
+/-- Same driver; the harness generator issues `cadd` ops (concurrent callers with one explicit id). -/
+def suiteConcurrent : Suite := { suite with name := "registry-concurrent" }
 
 end Driver.Suites.Registry
